@@ -148,3 +148,29 @@ Example C22_ex_1e2 :
   f6_class f6_witness = true /\ f6_class f6_witness32 = true /\
   f6_class ["0"; "."; "1"; "e"; "2"; "0"]%byte = false.
 Proof. vm_compute. repeat split. Qed.
+
+(* non-vacuity for the protojson layer *)
+Definition C22_str_tok (s : list byte) : token :=
+  {| t_kind := KString; t_pos := 0; t_raw := []; t_boo := false; t_str := s |}.
+Example C22_ex_quoted :
+  unmarshal_int 32 (C22_str_tok ["1"; "e"; "2"]%byte) = Some 100%Z /\
+  unmarshal_int 32 (C22_str_tok [" "; "1"]%byte) = None /\
+  unmarshal_int 64 (C22_str_tok ["-"; "9"; "2"; "2"; "3"; "3"; "7"; "2"; "0"; "3"; "6"; "8"; "5"; "4"; "7"; "7"; "5"; "8"; "0"; "8"]%byte)
+    = Some (-9223372036854775808)%Z /\
+  unmarshal_uint 64 (C22_str_tok ["0"; "."; "0"; "1"; "e"; "2"; "1"]%byte) = None.
+Proof. vm_compute. repeat split. Qed.
+Example C22_ex_bytes :
+  b64_encode false ["A"; "B"]%byte = ["Q"; "U"; "I"; "="]%byte /\
+  unmarshal_bytes (C22_str_tok ["Q"; "U"; "I"; "="]%byte) = Some ["A"; "B"]%byte /\
+  unmarshal_bytes (C22_str_tok ["Q"; "U"; "I"]%byte) = Some ["A"; "B"]%byte /\
+  unmarshal_bytes (C22_str_tok ["-"; "_"; "8"]%byte) = Some [xfb; xff]%byte /\
+  unmarshal_bytes (C22_str_tok ["Q"; "="]%byte) = None.
+Proof. vm_compute. repeat split. Qed.
+Example C22_ex_enum :
+  let values := [(["F"; "O"; "O"]%byte, 0%Z); (["B"; "A"; "R"]%byte, 1%Z)] in
+  unmarshal_enum values false (C22_str_tok ["B"; "A"; "R"]%byte) = Some (Some 1%Z) /\
+  unmarshal_enum values false (C22_str_tok ["b"; "a"; "r"]%byte) = None /\
+  unmarshal_enum values true (C22_str_tok ["b"; "a"; "r"]%byte) = Some None /\
+  unmarshal_enum values false {| t_kind := KNumber; t_pos := 0; t_raw := ["1"; "e"; "0"]%byte; t_boo := false; t_str := [] |}
+    = Some (Some 1%Z).
+Proof. vm_compute. repeat split. Qed.
